@@ -13,6 +13,7 @@ from .tokens import Tokens
 
 HTML_FEATURES = {
     "nested-table": "a table inside a td (twin: the inner table after the outer one)",
+    "nested-table-deep": "a table in a cell of a table in a cell of a table (twin: the same three tables with one level of nesting)",
     "cell-two-paragraphs": "<td><p>A</p><p>B</p></td> (twin: <td>A B</td>)",
     "br-in-heading": "<h2>A<br>B</h2> (twin: <h2>A B</h2>)",
     "br-in-cell": "<td>A<br>B</td> (twin: <td>A B</td>)",
@@ -20,7 +21,10 @@ HTML_FEATURES = {
     "inline-block-siblings": "<div>A</div><span>B</span> directly adjacent (twin: both div)",
 }
 EPUB_FEATURES = {
+    "href-plus": "a chapter file whose name contains '+' (twin: plain name)",
+    "href-percent-encoded": "a chapter file whose name contains a blank and a non-ASCII letter, percent-encoded in the manifest href (twin: plain name)",
     "nested-table": "a table inside a td (twin: sequential tables)",
+    "nested-table-deep": "a table in a cell of a table in a cell of a table (twin: the same three tables with one level of nesting)",
     "non-xhtml-spine-item": "an image item listed in the spine between two chapters (twin: not in the spine)",
     "chapter-without-body-text": "a chapter whose body has only an image (twin: has a paragraph)",
 }
@@ -53,6 +57,12 @@ def _body(rng, tk: Tokens, exp: Expect, unit: int, feature, twin, xhtml: bool, t
                 parts.append(f"<span class=\"c\">{' '.join(w('b', 1, 2))}</span>")
             else:
                 parts.append(f"{w('b', 1, 1)[0]}{br}{w('b', 1, 1)[0]}")
+            if rng.random() < 0.2:
+                # removed markup in the middle of running text: what follows it stays where it is
+                r = exp.out(tk.new("r"))
+                parts.append(rng.choice([f'<script type="text/javascript">var a = "{r}";</script>', f"<style>.{r} {{color: red}}</style>", f"<!-- {r} -->",
+                                         f"<noscript>{r}</noscript>"]))
+                parts.append(" ".join(w("v", 1, 2)))
         return " ".join(parts)
 
     def table(rows, cols, nested=None, feat=None):
@@ -122,8 +132,19 @@ def _body(rng, tk: Tokens, exp: Expect, unit: int, feature, twin, xhtml: bool, t
                     out.append(o + mid + i_)
                 else:
                     o, og = table(2, 2, nested=lambda: table(2, 2)[0])
+                    exp.nested_tables = 2
                     exp.tables_claimed = False
                     out.append(o)
+            elif feature == "nested-table-deep":
+                if twin:         # the same three tables, one level of nesting only
+                    o, og = table(2, 2, nested=lambda: table(2, 2)[0])
+                    t3, g3 = table(2, 2)
+                    out.append(o + t3)
+                else:            # table in a cell of a table in a cell of a table
+                    o, og = table(2, 2, nested=lambda: table(2, 2, nested=lambda: table(2, 2)[0])[0])
+                    out.append(o)
+                exp.nested_tables = 3
+                exp.tables_claimed = False
             elif feature in ("cell-two-paragraphs", "br-in-cell"):
                 xml, grid = table(2, 2, feat=feature)
                 out.append(xml)
@@ -202,6 +223,7 @@ def build_epub(seed, feature=None, twin=False):
     manifest, spine = [], []
     fch = rng.randrange(n_ch)
     n_img = 0
+    fname_rng = random.Random(f"epubnames:{seed}")
     for c in range(n_ch):
         empty = rng.random() < 0.1 and n_ch > 1 and c != fch
         if feature == "chapter-without-body-text" and c == fch:
@@ -209,11 +231,17 @@ def build_epub(seed, feature=None, twin=False):
         elif empty:
             body = "<p> </p>"
         else:
-            body = _body(rng, tk, exp, c, feature if (c == fch and feature == "nested-table") else None, twin, xhtml=True, tables_in_text=False)
+            body = _body(rng, tk, exp, c, feature if (c == fch and feature in ("nested-table", "nested-table-deep")) else None, twin, xhtml=True, tables_in_text=False)
         ttl = exp.ignore(tk.new("t"))
-        files[f"OEBPS/text/ch{c + 1}.xhtml"] = (f'<?xml version="1.0" encoding="utf-8"?><!DOCTYPE html><html xmlns="http://www.w3.org/1999/xhtml"><head><title>{ttl}</title></head>'
+        # chapter file names: plain, with '+', or with a blank (written percent-encoded in the manifest, as an IRI reference must be)
+        style = "plain" if feature not in (None, "href-plus", "href-percent-encoded") else fname_rng.choice(["plain"] * 5 + ["plus"] * 2)
+        if feature in ("href-plus", "href-percent-encoded") and c == fch:
+            style = "plain" if twin else ("plus" if feature == "href-plus" else "blank")
+        fname, href = {"plain": (f"ch{c + 1}.xhtml", f"ch{c + 1}.xhtml"), "plus": (f"c++{c + 1}_q+a.xhtml", f"c++{c + 1}_q+a.xhtml"),
+                       "blank": (f"chapter {c + 1} é.xhtml", f"chapter%20{c + 1}%20%C3%A9.xhtml")}[style]
+        files[f"OEBPS/text/{fname}"] = (f'<?xml version="1.0" encoding="utf-8"?><!DOCTYPE html><html xmlns="http://www.w3.org/1999/xhtml"><head><title>{ttl}</title></head>'
                                                 f"<body>{body}</body></html>").encode()
-        manifest.append(f'<item id="ch{c + 1}" href="text/ch{c + 1}.xhtml" media-type="application/xhtml+xml"/>')
+        manifest.append(f'<item id="ch{c + 1}" href="text/{href}" media-type="application/xhtml+xml"/>')
         spine.append(f'<itemref idref="ch{c + 1}"/>')
         if rng.random() < 0.4:
             n_img += 1
